@@ -364,6 +364,16 @@ def run_check(prop, tier, seed, replay=None):
         failures.append(Failure("proof", None, {"theorems_not_checked": broken_theorems,
                                                 "build_ok": build_ok, "forbidden": forb,
                                                 "build_tail": build_out[-1500:] if not build_ok else ""}))
+    leanchecker = None
+    if build_ok and tier == "thorough" and not replay:
+        # independent re-check of the compiled .olean files of this property's modules
+        t1 = time.time()
+        rc, out, err = run(["lake", "env", "leanchecker"] + list(prop.LEAN_MODULES), cwd=LEAN, timeout=3000)
+        leanchecker = {"rc": rc, "seconds": round(time.time() - t1, 1), "output": (out + err)[-500:]}
+        log(f"leanchecker {' '.join(prop.LEAN_MODULES)}: rc={rc} in {leanchecker['seconds']}s")
+        if rc != 0:
+            failures.append(Failure("proof", None, {"leanchecker_failed": leanchecker}))
+            discharged = 0
     log(f"obligations {len(prop.THEOREMS)} discharged {discharged}")
 
     # ---- 2./3. corpus + correspondence
@@ -481,6 +491,7 @@ def run_check(prop, tier, seed, replay=None):
             "trusted_base": TRUSTED_BASE + list(prop.ASSUMPTIONS),
             "theorems": {t: axioms.get(t) for t in prop.THEOREMS},
             "partial_theorems": prop.PARTIAL,
+            "leanchecker": leanchecker,
             "evaluations": n_corr + n_oracle + searched,
             "traces_validated_against_impl": n_corr - len(corr_fail),
             "oracle_evaluations": n_oracle,
